@@ -39,7 +39,7 @@ def parameters(p):
     return {"M": [qv(row) for row in m.local_min], "rho": qv(m.rho), "f": qv(m.f), "peak": qv(m.peak)}
 
 
-def build_record(dim, nf, rng, golden=None, npts=24, problem=None, stream=False):
+def build_record(dim, nf, rng, golden=None, npts=24, problem=None, stream=False, light=False):
     from iOpt.problems.GKLS import GKLS
     p = problem if problem is not None else GKLS(dim, nf)
     del RAISED[:]
@@ -52,7 +52,7 @@ def build_record(dim, nf, rng, golden=None, npts=24, problem=None, stream=False)
     pts = []
     for i in range(10):
         pts.append(M[i])
-    for i in range(1, 10):
+    for i in range(1, 10 if not light else 0):
         dirs = []
         k = (i + nf) % dim
         for sg in (1.0, -1.0):
@@ -71,11 +71,11 @@ def build_record(dim, nf, rng, golden=None, npts=24, problem=None, stream=False)
                 y = [a + t * rho[i] * b for a, b in zip(M[i], e)]
                 if inbox(y):
                     pts.append(y)
-    for _ in range(npts):
+    for _ in range(npts if not light else 2):
         pts.append([rng.uniform(-1, 1) for _ in range(dim)])
     pts.append([1.0] * dim), pts.append([-1.0] * dim)
     pairs = []
-    for i in range(1, 10):
+    for i in range(1, 10 if not light else 0):
         for _ in range(3):
             g = [rng.gauss(0, 1) for _ in range(dim)]
             ng = sum(t * t for t in g) ** 0.5
